@@ -17,12 +17,21 @@ def arm_flag(arm):
     d = p.get("def") or p.get("ctor_of") or ""
     if d.startswith(FLAG):
         return d[len(FLAG):]
+    if p.get("k") == "POr":
+        # `A | B => ..`: the arm is an Interrupt arm only if it names Interrupt
+        names = [(q.get("def") or q.get("ctor_of") or "")[len(FLAG):] for q in p.get("pats", []) if (q.get("def") or q.get("ctor_of") or "").startswith(FLAG)]
+        return "Interrupt" if "Interrupt" in names else (names[0] if names else None)
     return None
 
 
 def solout_matches(body):
+    """matches on the callback's answer: `match sol.solout(..) {..}` or `let flag = sol.solout(..); .. match flag {..}`"""
+    bound = set()
+    for l in tast.find(body, lambda x: x.get("k") == "Let" and x["pat"].get("k") == "PBind" and (x.get("init") or {}).get("k") == "MethodCall" and x["init"].get("def") == SOLOUT):
+        bound.add(l["pat"]["id"])
     return [m for m in tast.find(body, lambda x: x.get("k") == "Match")
-            if m["scrut"].get("k") == "MethodCall" and m["scrut"].get("def") == SOLOUT]
+            if (m["scrut"].get("k") == "MethodCall" and m["scrut"].get("def") == SOLOUT)
+            or (m["scrut"].get("k") == "Path" and m["scrut"].get("res") == "local" and m["scrut"].get("id") in bound)]
 
 
 # ---------------------------------------------------------------- R-SOLOUT-INIT / CONTIG / INTERP-H
